@@ -54,8 +54,8 @@ inductive Head where
   | element (e : Elem)
   | comment (origin : Tok) (indent : Int)
   | unescape (origin : Tok) (indent : Int)
-  | silent (origin : Tok) (indent : Int)
-  | render (origin : Tok) (indent : Int)
+  | silent (origin : Tok) (indent : Int) (complete : Bool)    -- `complete`: the newline ending its own line was seen
+  | render (origin : Tok) (indent : Int) (complete : Bool)
   | filter (origin : Tok) (indent : Int) (kind : FilterKind)
 deriving Repr
 
@@ -73,21 +73,21 @@ def Frame.toNode (f : Frame) : Node :=
   | .element e => .element e ks
   | .comment o i => .comment o i ks
   | .unescape o i => .unescape o i ks
-  | .silent o i => .silent o i ks
-  | .render o i => .render o i ks
+  | .silent o i _ => .silent o i ks
+  | .render o i _ => .render o i ks
   | .filter o i k => .filter o i k ks
 
 def Head.isRoot : Head → Bool | .root .. => true | _ => false
 def Head.isGoht : Head → Bool | .goht .. => true | _ => false
 def Head.indent : Head → Int
   | .root .. => 0 | .code .. => 0 | .goht .. => -1
-  | .element e => e.indent | .comment _ i => i | .unescape _ i => i | .silent _ i => i
-  | .render _ i => i | .filter _ i _ => i
+  | .element e => e.indent | .comment _ i => i | .unescape _ i => i | .silent _ i _ => i
+  | .render _ i _ => i | .filter _ i _ => i
 def Head.origin : Head → Tok
   | .root .. => { typ := .root, lit := [], line := 0, col := 0 }
   | .code ts => (ts.getLast?).getD { typ := .eof, lit := [], line := 0, col := 0 }
   | .goht o => o | .element e => e.origin | .comment o _ => o | .unescape o _ => o
-  | .silent o _ => o | .render o _ => o | .filter o _ _ => o
+  | .silent o _ _ => o | .render o _ _ => o | .filter o _ _ => o
 
 structure PErr where
   line : Int
@@ -153,10 +153,15 @@ def backToParent (p : P) : Except PErr P :=
 
 
 /-- html.EscapeString -/
-def htmlEscape (s : GoStr) : GoStr :=
-  s.flatMap fun b =>
-    if b == 38 then bs "&amp;" else if b == 39 then bs "&#39;" else if b == 60 then bs "&lt;"
-    else if b == 62 then bs "&gt;" else if b == 34 then bs "&#34;" else [b]
+def esc1 (b : UInt8) : GoStr :=
+  if b == 38 then [38, 97, 109, 112, 59]        -- &amp;
+  else if b == 39 then [38, 35, 51, 57, 59]     -- &#39;
+  else if b == 60 then [38, 108, 116, 59]       -- &lt;
+  else if b == 62 then [38, 103, 116, 59]       -- &gt;
+  else if b == 34 then [38, 35, 51, 52, 59]     -- &#34;
+  else [b]
+
+def htmlEscape (s : GoStr) : GoStr := s.flatMap esc1
 
 /-- strconv.Unquote, prototype coverage: raw strings and the simple escapes. `none` = error. -/
 def unquoteBody : GoStr → Option GoStr
@@ -220,9 +225,9 @@ def handleNode (fuel : Nat) (p : P) (self : Tok) (nIndent : Int) (indent : Int) 
   | .unescaped => let (p, t) := p.next; .ok (p.push (.unescape t indent))
   | .plainText | .preserveText | .escapedText | .dynamicText =>
     let (p, t) := p.next; .ok (p.addChild (.text t))
-  | .silentScript => let (p, t) := p.next; .ok (p.push (.silent t indent))
+  | .silentScript => let (p, t) := p.next; .ok (p.push (.silent t indent false))
   | .script => let (p, t) := p.next; .ok (p.addChild (.script t))
-  | .renderCommand => let (p, t) := p.next; .ok (p.push (.render t indent))
+  | .renderCommand => let (p, t) := p.next; .ok (p.push (.render t indent false))
   | .childrenCommand => let (p, t) := p.next; .ok (p.addChild (.children t))
   | .filterStart =>
     let (p, t) := p.next
@@ -303,7 +308,7 @@ def parseStep (p : P) : Except PErr P :=
         let e := if e.isSelfClosing || nk > 0 then { e with disallowChildren := true } else e
         let p := p.setTop { p.top with head := .element e }
         .ok (if nk == 0 then p.addChild (.newLine t) else p)
-      | .id => let (p, t) := p.next; .ok (p.setTop { p.top with head := .element { e with id := htmlEscape t.lit } })
+      | .id => let (p, t) := p.next; .ok (p.setTop { p.top with head := .element { e with id := t.lit } })
       | .cls => let (p, t) := p.next; .ok (p.setTop { p.top with head := .element { e with classes := e.classes ++ [t] } })
       | .objectRef => let (p, t) := p.next; .ok (p.setTop { p.top with head := .element { e with objectRef := some t } })
       | .attrName =>
@@ -333,10 +338,10 @@ def parseStep (p : P) : Except PErr P :=
     else handleNode fuel p o i (i + 1)
   | .unescape o i =>
     if t.typ == .newLine then backToParent p else handleNode fuel p o i i
-  | .silent o i =>
-    if t.typ == .newLine then .ok (p.next).1 else handleNode fuel p o i (i + 1)
-  | .render o i =>
-    if t.typ == .newLine then .ok (p.next).1 else handleNode fuel p o i (i + 1)
+  | .silent o i done =>
+    if t.typ == .newLine && !done then .ok ((p.next).1.setTop { p.top with head := .silent o i true })
+    else handleNode fuel p o i (i + 1)
+  | .render o i _ => handleNode fuel p o i (i + 1)
   | .filter o _ k =>
     match k with
     | .js => filterParse p o [.plainText, .dynamicText] "javascript"
